@@ -115,8 +115,9 @@ ReadLock ==
   /\ p.pc = "readlock"
   /\ \/ /\ p' = [p EXCEPT !.pc = "handlers", !.cached = IF p.cache /\ UsableLock(lock) THEN lock ELSE NoRef]
         /\ g' = g
-     \/ \* the lock file exists but cannot be examined or read: the run gives up before anything else happens
-        /\ FaultOnLock /\ p.cache /\ g.faults < MaxFaults
+     \/ \* the lock file exists but cannot be examined or read: an edit run gives up before anything else happens
+        \* (a check run never needs the lock: it only warns, which is the first branch with nothing cached)
+        /\ FaultOnLock /\ p.cache /\ p.mode = "edit" /\ g.faults < MaxFaults
         /\ g' = [g EXCEPT !.faults = @ + 1]
         /\ p' = [p EXCEPT !.pc = "exit2"]
   /\ UNCHANGED fsvars
